@@ -57,8 +57,8 @@ def run_verus_unit(unit_name, pid, tier, out):
     bdir = os.path.join(BUILD, unit_name if REPO == '/repo' else unit_name + '_' + hashlib.sha1(REPO.encode()).hexdigest()[:8])
     os.makedirs(bdir, exist_ok=True)
     gpath = os.path.join(bdir, unit_name + '.rs')
-    strip = set()
-    for attempt in range(3):
+    strip = {}
+    for attempt in range(5):
         u = T.Unit(tpath, repo=REPO, strip_hints=strip)
         try:
             text = u.build()
@@ -82,9 +82,10 @@ def run_verus_unit(unit_name, pid, tier, out):
             else:
                 fns = None
                 break
-        if not fns or fns <= strip:
+        if not fns or all(strip.get(f, 0) >= 2 for f in fns):
             break
-        strip |= fns
+        for f in fns:
+            strip[f] = strip.get(f, 0) + 1
     if an['undecided']:
         res2 = V.run(gpath, rlimit=120, extra=['--smt-option', 'smt.random_seed=%d' % (int(os.environ.get('VERIF_SEED', '0')) % 1000 + 1)])
         an2 = V.analyse(res2, u)
